@@ -1,5 +1,5 @@
 From Coq Require Import Lia ZArith.
-From CDD Require Import PyStr Doctrans.
+From CDD Require Import PyStr DocSplit Doctrans.
 Open Scope N_scope.
 
 Lemma set_nth_length {A} i (v : A) l : length (set_nth i v l) = length l.
@@ -147,4 +147,27 @@ Theorem find_cst_none l lineno kind name :
 Proof.
   unfold find_cst. generalize O. induction l as [|c r IH]; intros i H x Hx; [destruct Hx|]. cbn [find_cst_from] in H.
   destruct (cst_matches lineno kind name c) eqn:E; [discriminate|]. destruct Hx as [<-|Hx]; [exact E | exact (IH (S i) H x Hx)].
+Qed.
+
+(* ---- the docstring edit: whatever is inserted, deleted or replaced, the header node and everything before it, and everything
+   from the second node after it on, are written back unchanged ---- *)
+Theorem apply_edit_outside e i (l : list str) :
+  exists mid k, (S i <= k <= S (S i))%nat /\
+    concat (apply_edit e i l) = concat (firstn (S i) l) ++ mid ++ concat (skipn k l).
+Proof.
+  destruct e as [|v| |v]; cbn [apply_edit].
+  - exists [], (S i). split; [lia|]. cbn [app]. rewrite <- (firstn_skipn (S i) l) at 1. apply concat_app.
+  - exists v, (S i). split; [lia|]. rewrite concat_app. reflexivity.
+  - exists [], (S (S i)). split; [lia|]. rewrite concat_app. reflexivity.
+  - exists v, (S (S i)). split; [lia|]. rewrite concat_app. reflexivity.
+Qed.
+
+(* the new docstring node is a triple-quoted string on its own lines, indented like the node it is put in front of *)
+Theorem formatted_doc_str_shape after doc :
+  exists space body, formatted_doc_str after doc = [NL] ++ space ++ TQ ++ body ++ [NL] ++ space ++ TQ
+                     /\ forallb is_space space = true.
+Proof.
+  unfold formatted_doc_str. eexists. eexists. split; [reflexivity|].
+  generalize (lstrip_chars [NL] after). intro s0. induction s0 as [|c r IH]; [reflexivity|].
+  cbn [count_leading_space]. destruct (is_space c) eqn:E; [|reflexivity]. cbn [firstn forallb]. rewrite E. exact IH.
 Qed.
